@@ -150,6 +150,7 @@ func ckksE2SLeaf(c *engine.Chooser, name string, k cfg) {
 	}
 	if k.lin == 0 {
 		c.Cover("ckks-minlevel", "at-minimum")
+		coverTight(c, w, k.n)
 	}
 	e2s := make([]mpckks.EncToShareProtocol, n)
 	s2e := make([]mpckks.ShareToEncProtocol, n)
@@ -180,11 +181,12 @@ func ckksE2SLeaf(c *engine.Chooser, name string, k cfg) {
 			c.Fail("C16/ckks-e2s/GenShare/error-at-admissible-level", "level %d >= GetMinimumLevelForRefresh = %d (logBound %d): %v", lsh, w.minLevel, w.logBound, err)
 			return
 		}
-		// masks lie in [-2^(logBound-1), 2^(logBound-1))
-		half := new(big.Int).Lsh(big.NewInt(1), w.logBound-1)
+		// documented: logBound is "the bit length of the masks": |M| < 2^logBound (the implementation centres them,
+		// which is not promised and not demanded here)
+		lim := new(big.Int).Lsh(big.NewInt(1), w.logBound)
 		for _, m := range sec[i].Value[:w.dslots] {
-			if m.Cmp(half) >= 0 || m.Cmp(new(big.Int).Neg(half)) < 0 {
-				c.Fail("C16/ckks-e2s/GenShare/mask-outside-logBound", "party %d: mask %v outside [-2^%d, 2^%d)", i, m, w.logBound-1, w.logBound-1)
+			if new(big.Int).Abs(m).Cmp(lim) >= 0 {
+				c.Fail("C16/ckks-e2s/GenShare/mask-longer-than-logBound", "party %d: mask %v has more than %d bits", i, m, w.logBound)
 				return
 			}
 		}
@@ -320,6 +322,7 @@ func ckksTransformLeaf(c *engine.Chooser, name string, k cfg) {
 	}
 	if k.lin == 0 {
 		c.Cover("ckks-minlevel", "at-minimum")
+		coverTight(c, w, k.n)
 	}
 	prec := w.logBound + 96 // internal float precision: the masks have logBound bits, 96 guard bits make the FFT error negligible
 	refresh := k.proto == "ckks-refresh"
@@ -520,4 +523,12 @@ func ckksTransformLeaf(c *engine.Chooser, name string, k cfg) {
 		c.Note("%s: |phase - expected| = %v <= %v", mode, maxDiff(ph, want), bound)
 	}
 	c.Cover("functional", k.proto)
+}
+
+// coverTight records whether the minimum level leaves less than one bit of slack: Q_min < 2 * N * 2^logBound.
+func coverTight(c *engine.Chooser, w *ckksWorld, n int) {
+	lim := new(big.Int).Lsh(big.NewInt(int64(2*n)), w.logBound)
+	if uni.QAtLevel(w.rp, w.minLevel).Cmp(lim) < 0 {
+		c.Cover("ckks-minlevel", "no-slack")
+	}
 }
